@@ -126,3 +126,104 @@ theorem rk4Loop_success_at_xend {σ : Type} (P : R4Params K) (f : Rhs K n) (ob :
       exact ih s' r h hs
 end
 end Ctl
+
+/-! ### the same without arithmetic: `Success` only at `xend` itself, for every instance of `Num` -/
+namespace Ctl
+section
+variable {α : Type} [Num α] {n : Nat}
+
+/-- **C03, RK23, every arithmetic.**  `Success` is reported only after the landing step, which ends at `xend` itself, or
+    when a step end compares equal to `xend` (`x == xend`, IEEE equality at `Float`). -/
+theorem rk23Iter_success_exact {σ : Type} (P : R23Params α n) (f : Rhs α n) (ob : Obs σ α n)
+    (s : R23State σ α n) (r : Result σ α n) (h : rk23Iter P f ob s = .inr r) (hs : r.status = .success) :
+    r.x = P.xend ∨ Num.eqb r.x P.xend = true := by
+  unfold rk23Iter at h
+  cases hg : rk23Guard P s with
+  | some st =>
+    rw [hg] at h
+    injection h with h
+    rw [← h] at hs
+    unfold rk23Guard at hg
+    split at hg
+    · injection hg with hg; rw [← hg] at hs; cases hs
+    · split at hg
+      · injection hg with hg; rw [← hg] at hs; cases hs
+      · cases hg
+  | none =>
+    rw [hg] at h
+    dsimp only at h
+    split at h
+    · unfold rk23Accepted at h
+      dsimp only at h
+      split at h
+      · injection h with h; rw [← h] at hs; cases hs
+      · split at h
+        · rename_i hex
+          injection h with h
+          rw [← h]
+          show landX (rk23Last P s) P.xend s.x (rk23Adjust P s) = P.xend ∨ Num.eqb (landX (rk23Last P s) P.xend s.x (rk23Adjust P s)) P.xend = true
+          rcases Bool.or_eq_true _ _ ▸ hex with hl | he
+          · left; simp [landX, hl]
+          · right; exact he
+        · cases h
+    · cases h
+
+theorem rk23Loop_success_exact {σ : Type} (P : R23Params α n) (f : Rhs α n) (ob : Obs σ α n) :
+    ∀ (fuel : Nat) (s : R23State σ α n) (r : Result σ α n), rk23Loop P f ob fuel s = some r → r.status = .success →
+      r.x = P.xend ∨ Num.eqb r.x P.xend = true := by
+  intro fuel
+  induction fuel with
+  | zero => intro s r h; simp [rk23Loop] at h
+  | succ fuel ih =>
+    intro s r h hs
+    unfold rk23Loop at h
+    split at h
+    · rename_i r' heq
+      injection h with h
+      rw [← h] at hs ⊢
+      exact rk23Iter_success_exact P f ob s r' heq hs
+    · rename_i s' heq
+      exact ih s' r h hs
+
+
+theorem rk4_update_x' (f : Nat → α → Vector α n → Vector α n) (y k1 k2 k3 k4 : Vector α n) (x h : α) (l : Bool) (e : α) :
+    (Gen.Rk4.update (f := f) (last := l) (xend := e) (h := h) (x := x) (k1 := k1) (k2 := k2) (k3 := k3) (k4 := k4) (y := y)).x
+      = landX l e x h := by
+  simp [Gen.Rk4.update, landX]
+
+/-- **C03, RK4, every arithmetic.**  `Success` is reported only at `xend` itself. -/
+theorem rk4Iter_success_exact {σ : Type} (P : R4Params α) (f : Rhs α n) (ob : Obs σ α n)
+    (s : R4State σ α n) (r : Result σ α n) (h : rk4Iter P f ob s = .inr r) (hs : r.status = .success) :
+    r.x = P.xend := by
+  unfold rk4Iter at h
+  split at h
+  · injection h with h; rw [← h] at hs; cases hs
+  · dsimp only at h
+    split at h
+    · injection h with h; rw [← h] at hs; cases hs
+    · split at h
+      · rename_i hl
+        injection h with h
+        rw [← h]
+        rw [rk4_update_x']
+        simp [landX, hl]
+      · cases h
+
+theorem rk4Loop_success_exact {σ : Type} (P : R4Params α) (f : Rhs α n) (ob : Obs σ α n) :
+    ∀ (fuel : Nat) (s : R4State σ α n) (r : Result σ α n), rk4Loop P f ob fuel s = some r → r.status = .success →
+      r.x = P.xend := by
+  intro fuel
+  induction fuel with
+  | zero => intro s r h; simp [rk4Loop] at h
+  | succ fuel ih =>
+    intro s r h hs
+    unfold rk4Loop at h
+    split at h
+    · rename_i r' heq
+      injection h with h
+      rw [← h] at hs ⊢
+      exact rk4Iter_success_exact P f ob s r' heq hs
+    · rename_i s' heq
+      exact ih s' r h hs
+end
+end Ctl
